@@ -31,6 +31,7 @@ type c20Req struct {
 	Service time.Duration `json:"service_ns"`
 	Abort   string        `json:"abort,omitempty"`          // "" before-send mid-request stall stall-body stall-read
 	Upload  time.Duration `json:"slow_upload_ns,omitempty"` // body delivered this long after the headers
+	Surplus string        `json:"surplus_bytes,omitempty"`  // sent after the well-formed request on the same connection
 	SentAt  time.Duration `json:"-"`
 	Resp    string        `json:"-"`
 	Done    bool          `json:"-"`
@@ -171,6 +172,10 @@ func runC20(t *zsim.Tape, cfg *hlib.Config) *hlib.Outcome {
 	enUpload := t.Draw(4) == 3
 	// big responses, to clients that read them or that stop reading (and keep the connection)
 	enBig := t.Draw(4) == 3
+	// clients that send more than their request: a legacy trailing CRLF, a pipelined second
+	// request, a body longer than its Content-Length — one connection serves one request, the
+	// surplus belongs to nobody else
+	enSurplus := t.Draw(4) == 3
 	// a client that stalls for ever pins its worker (the worker has no read deadline); the
 	// remaining capacity argument (max-procs minus stallers >= 1) only holds while no worker
 	// dies, so this fault is drawn only in runs without any fault that ends a worker
@@ -241,6 +246,9 @@ func runC20(t *zsim.Tape, cfg *hlib.Config) *hlib.Outcome {
 					// in the middle of the response (a worker-ending fault, see stall-body)
 					r.Abort = "stall-read"
 				}
+			}
+			if enSurplus && r.Abort == "" && t.Draw(3) == 2 {
+				r.Surplus = []string{"\r\n", "POST /run HTTP/1.1\r\nHost: sim\r\nContent-Length: 2\r\n\r\nXX", "多余的字节", "\r\n\r\n"}[t.Draw(4)]
 			}
 			if enUpload && r.Abort == "" && t.Draw(4) == 3 {
 				if t.Draw(2) == 1 && !enStallClient {
@@ -321,7 +329,10 @@ func runC20(t *zsim.Tape, cfg *hlib.Config) *hlib.Outcome {
 					zsim.Sleep(r.Upload)
 					conn.Write([]byte(msg[cut:]))
 				} else {
-					conn.Write([]byte(msg))
+					if r.Surplus != "" {
+						w.Fault("client-sends-surplus-bytes")
+					}
+					conn.Write([]byte(msg + r.Surplus))
 				}
 				var resp []byte
 				buf := make([]byte, 4096)
